@@ -73,7 +73,10 @@ type IntegWorld struct {
 	Sequential  bool                 `json:"sequential,omitempty"` // drivers run one after another
 	// ViaConfig: tasks, pipelines are written to a configuration file and built by the real
 	// config loader instead of through the Go API (C08, CLI).
-	ViaConfig   bool         `json:"via_config,omitempty"`
+	ViaConfig bool `json:"via_config,omitempty"`
+	// CLI: the world is run through the in-process command line (makeApp().Run) with these arguments
+	// after `taskctl -c <file> --output raw`.
+	CLIArgs     []string     `json:"cli_args,omitempty"`
 	ExtraGraphs []*GraphSpec `json:"extra_graphs,omitempty"`
 }
 
